@@ -178,6 +178,12 @@ static void run_cp(Rng& rng, long ncases) {
   const Q PI2 = 2 * M_PIq;
   for (long cs = 0; cs < ncases; cs++) {
     S m = (S)rng.pm(0.1L, 3.0L), sg = (S)rng.uni(0.2L, 3.0L), sd = (S)rng.uni(0.2L, 3.0L);
+    // one case in six in other units: every quantity of the problem (prior mean and deviations, data, evaluation points) times 2^k, |k| <= 450:
+    // densities scale by 2^-k, mean by 2^k, variance by 4^k - exactly; one case in six with the data far from the prior mean (10 .. 1e6 deviations)
+    long double unit = 1; long double far = 0;
+    { int uk = rng.below(6); if (uk == 0) unit = ldexpl(1.0L, (rng.coin() ? 1 : -1) * (60 + rng.below(391))); else if (uk == 1) far = rng.sgn() * powl(10.0L, rng.uni(1.0L, 6.0L)); }
+    if (unit != 1) { m = (S)((long double)m * unit); sg = (S)((long double)sg * unit); sd = (S)((long double)sd * unit); LOG.count("cp_cases_in_other_units", 1); }
+    if (far != 0) LOG.count("cp_cases_with_data_far_from_the_prior", 1);
     masa_set_param<S>("m", m); masa_set_param<S>("sigma", sg); masa_set_param<S>("sigma_d", sd);
     // history: the data vector is (re)set 1-3 times with other lengths before anything is evaluated
     std::vector<S> data;
@@ -188,7 +194,7 @@ static void run_cp(Rng& rng, long ncases) {
       int n = 1 + rng.below(50);
       if (rng.below(5) == 0) n = rng.coin() ? LONGN[rng.below(18)] : 51 + rng.below(4950);
       data.assign((size_t)n, S(0));
-      for (auto& d : data) d = (S)rng.uni(-3.0L, 3.0L);
+      for (auto& d : data) d = (S)((rng.uni(-3.0L, 3.0L) + far * (long double)sd / unit) * unit);
       masa_set_vec<S>("vec_data", data);
       nhist++;
       if (k + 1 < resets && rng.coin()) { CAP.begin(); (void)masa_eval_posterior<S>((S)0.1); CAP.end(); }   // evaluations in between
@@ -204,6 +210,11 @@ static void run_cp(Rng& rng, long ncases) {
       ncmp++;
       double sc = (double)fabsq(scale);
       double r = (double)fabsq((Q)lib - ref) / (u * (sc > 0 ? sc : 1));
+      // accuracy: the closed forms are a handful of operations; beyond 2^10 u x (conditioning scale) is not roundoff (soak maxima: 18)
+      if (std::isfinite(lib) && r <= 1048576.0 && r > 1024.0)
+        viol_once("cp_normal:" + what + "-accuracy", "cp_normal " + what + " agrees with the closed form only to " + std::to_string(r) + " u x scale",
+                  JObj().str("precision", P).str("quantity", what).num("library", lib).num("closed_form", LD(ref)).num("m", (long double)m).num("sigma", (long double)sg)
+                      .num("sigma_d", (long double)sd).num("n_data", (long)data.size()).num("data_mean", LD(xbar)).num("ratio", r).str("history", extra).done());
       if (!std::isfinite(lib) || r > 1048576.0)
         viol_once("cp_normal:" + what, "cp_normal " + what + " differs from the conjugate-normal closed form",
                   JObj().str("precision", P).str("quantity", what).num("library", lib).num("closed_form", LD(ref)).num("m", (long double)m).num("sigma", (long double)sg)
@@ -226,7 +237,7 @@ static void run_cp(Rng& rng, long ncases) {
             S x = (S)(LD(mp) + (long double)rng.uni(-5.0L, 5.0L) * LD(sqrtq(vp)));
             Q ref = expq(-((Q)x - mp) * ((Q)x - mp) / (2 * vp)) / sqrtq(PI2 * vp);
             Q zz = fabsq((Q)x - mp) / sqrtq(vp);
-            cmp("posterior", (long double)masa_eval_posterior<S>(x), ref, ref * (1 + zz * zz * (fabsq((Q)x) + fabsq(mp)) / sqrtq(vp) + zz * zz), hist);
+            cmp("posterior", (long double)masa_eval_posterior<S>(x), ref, ref * (1 + (zz + zz * zz) * (fabsq((Q)x) + fabsq(mp) + absmean) / sqrtq(vp) + zz * zz), hist);   // d/dx and d/dmean of the exponent: (x - mean)/var
           }
           break;
         case 3:
@@ -255,14 +266,14 @@ static void run_cp(Rng& rng, long ncases) {
       CAP.end();
     }
     // central moments k = 0..20: 0 for odd k, sigma^k (k-1)!! for even k
-    for (int k = 0; k <= 20; k++) {
+    for (int k = 0; k <= 20 && unit == 1; k++) {
       Q ref = 0;
       if (k % 2 == 0) { ref = powq((Q)sg, k); for (int j = k - 1; j > 1; j -= 2) ref *= j; }
       CAP.begin(); S lib = masa_eval_central_moment<S>(k); CAP.end();
       cmp("central_moment_k" + std::string(k % 2 ? "odd" : (k <= 2 ? "0or2" : "even>=4")), (long double)lib, ref, ref * (1 + k), "k=" + std::to_string(k));
     }
     // ---- reference-free monitors (every 4th case: quadrature is the expensive part)
-    if (cs % 4 == 0) {
+    if (cs % 4 == 0 && unit == 1 && far == 0) {
       nquad++;
       auto quad = [&](bool post, long double c, long double s, long double* mom) {
         const int N = 1200; long double h = 24 * s / N; mom[0] = mom[1] = mom[2] = 0;
